@@ -27,6 +27,11 @@ REQUIRED_THEOREMS = [
     "source_face_id_eq_model", "source_edge_id_eq_model", "source_edge_id_spec", "source_is_edge_on_border_spec",
     "source_face_id_spec", "source_border_partition", "source_edge_to_faces_eq_model", "source_face_to_edges_eq_model",
     "source_vertex_to_edges_eq_model", "source_other_edge_end_eq_model", "source_interior_boundary_vertices_eq_model", "borderEnds_lt",
+    # round 5: _compute_connectivity (corner tables, half-edge table, opposite pass) and the accessors reading these caches
+    "source_half_edge_tables_eq_model", "source_previous_corner_eq_model", "source_next_corner_eq_model", "source_opposite_corner_eq_model",
+    "source_corner_to_half_edge_eq_model", "source_half_edge_to_corner_eq_model", "source_vertex_to_corner_in_face_eq_model",
+    "source_direct_face_eq_model", "source_direct_face_inds_eq_model", "source_opposite_face_eq_model", "source_opposite_face_inds_eq_model",
+    "source_vertex_to_faces_eq_model", "source_direct_face_spec",
 ]
 TRUSTED = [
     "Lean 4.33.0 kernel; axioms ⊆ {propext, Classical.choice, Quot.sound}",
@@ -795,7 +800,9 @@ def extract_table():
 
 
 FALLBACK = ("def queryNames : List (String × Nat) := []\ndef cacheNames : List String := []\ndef fnNames : List String := []\n"
-            "def table : Mouette.Lazy.Table := { ncaches := 0, bodies := [], init := [], queries := [], fuel := 0, rounds := 0 }\n")
+            "/- the translator refused the current source: a stub table that is NOT well guarded (one query reading a cache nobody initialises), so that\n"
+            "   `generated_table_wellguarded` does not build on it -/\n"
+            "def table : Mouette.Lazy.Table := { ncaches := 1, bodies := [[(false, .read 0)]], init := [], queries := [0], fuel := 2, rounds := 2 }\n")
 
 
 def translate():
@@ -830,17 +837,20 @@ def _smap():
     S, L, M = "mouette/mesh/datatypes/surface.py::", "mouette/mesh/datatypes/linear.py::", "mouette/mesh/mesh_data.py::"
     g = "modelled: guard structure translated (C01Guards), answer hand-modelled in Model/Surface.lean"
     m = {}
-    for f in CS.FUNCTIONS:
+    for f in CS.FUNCTIONS + CS.CC_FUNCTIONS:
         m[(S if f.startswith("SurfaceMesh") else L) + f] = "translated"
+    m[S + "SurfaceMesh._Connectivity._compute_connectivity"] = ("translated: corner loop, half-edge loops, opposite pass (Generated/C01HE.lean, bridge "
+                                                                "source_half_edge_tables_eq_model); the base-class call (_adjV2V) and the final "
+                                                                "call of _sort_vertex_neighborhoods are recognised and left to the hand model")
     for f in ["SurfaceMesh.__init__", "SurfaceMesh.is_triangular", "SurfaceMesh.is_quad", "SurfaceMesh.clear_boundary_data",
               "SurfaceMesh.is_vertex_on_border", "SurfaceMesh.interior_edges",
               "SurfaceMesh.boundary_edges", "SurfaceMesh.boundary_vertices", "SurfaceMesh.interior_vertices",
-              "SurfaceMesh._Connectivity.__init__", "SurfaceMesh._Connectivity.clear", "SurfaceMesh._Connectivity._compute_connectivity",
-              "SurfaceMesh._Connectivity._sort_vertex_neighborhoods", "SurfaceMesh._Connectivity.vertex_to_faces",
-              "SurfaceMesh._Connectivity.vertex_to_corners", "SurfaceMesh._Connectivity.vertex_to_corner_in_face",
-              "SurfaceMesh._Connectivity.previous_corner", "SurfaceMesh._Connectivity.next_corner", "SurfaceMesh._Connectivity.opposite_corner",
-              "SurfaceMesh._Connectivity.corner_to_half_edge", "SurfaceMesh._Connectivity.corner_to_face",
-              "SurfaceMesh._Connectivity.half_edge_to_corner", "SurfaceMesh._Connectivity.direct_face", "SurfaceMesh._Connectivity.opposite_face",
+              "SurfaceMesh._Connectivity.__init__", "SurfaceMesh._Connectivity.clear", 
+              "SurfaceMesh._Connectivity._sort_vertex_neighborhoods", 
+              "SurfaceMesh._Connectivity.vertex_to_corners", 
+              
+              "SurfaceMesh._Connectivity.corner_to_face",
+              
               "SurfaceMesh._Connectivity.common_edge", "SurfaceMesh._Connectivity.face_to_vertices", "SurfaceMesh._Connectivity.in_face_index",
               "SurfaceMesh._Connectivity.face_to_first_corner", "SurfaceMesh._Connectivity.face_to_corners", "SurfaceMesh._Connectivity.face_to_faces"]:
         m[S + f] = g
